@@ -1,5 +1,118 @@
 import JF.Driver.Core
+import JF.Model.Store
+/-!
+Component `store`: one session = one `JF.Store.Sess Float`.
+
+Requests (floats as uint64 bit patterns, identifiers as `0.1`, the empty identifier as `-`):
+  init <levels> <perRoot> <dim> <nroots> { <nchildren> <charge> <pos>*dim { <charge> <pos>*dim }*nchildren }*nroots
+  extract <id> | active | global | insert <b>:<u> ...
+  setpos b u i x | newpos b u x* | setvel b u i x | newvel b u (x* | -) | tsupd b u q r | newts b u (q r | -)
+Reply: `<status> | A <ids of the last active extraction> | G <global branches> | D <dictionary> | L1 <ids> | L2 <ids> | B <live branches>`
+where every reference is printed as `@<ref>` followed by the value behind it.
+-/
 namespace JF.Driver
-/-- component `store` (stub until its model is written) -/
-def storeComp : Comp := Comp.pure fun _ => "unimplemented"
+open JF JF.Store
+
+private def showId (id : Ident) : String :=
+  if id.isEmpty then "-" else ".".intercalate (id.map toString)
+
+private def parseId (s : String) : Ident :=
+  if s == "-" then [] else (s.splitOn ".").map String.toNat!
+
+private def showRef (h : Heap Float) (r : Ref) : String :=
+  match h.get? r with
+  | some (.vec l) => s!"@{r}[" ++ ",".intercalate (l.map bits) ++ "]"
+  | some (.time q r') => s!"@{r}({bits q},{bits r'})"
+  | none => s!"@{r}?"
+
+private def showOptRef (h : Heap Float) : Option Ref → String
+  | none => "N"
+  | some r => showRef h r
+
+private def showUnit (h : Heap Float) (u : CUnit Float) : String :=
+  ",".intercalate [showId u.id, showRef h u.pos, (match u.charge with | none => "N" | some c => s!"c{c}"),
+    showOptRef h u.vel, showOptRef h u.ts, bits u.weight]
+
+private def showBranch (h : Heap Float) (b : Branch Float) : String :=
+  "{" ++ ";".intercalate (b.units.map (showUnit h)) ++ "}"
+
+private def showIds (l : List Ident) : String :=
+  if l.isEmpty then "-" else "/".intercalate (l.map showId)
+
+private def dump (s : Sess Float) : String :=
+  let g := joinSp ((extractGlobal s.g s.h).map (showBranch s.h))
+  let d := joinSp (s.g.lift.dict.map fun (k, v, t) => s!"{showId k}={showRef s.h v}{showRef s.h t}")
+  let l1 := showIds (s.g.lift.lifted1.mergeSort (fun a b => lexLe a b))
+  let l2 := showIds (s.g.lift.lifted2.mergeSort (fun a b => lexLe a b))
+  let b := joinSp (s.live.map fun L => showBranch s.h L.b ++ (if L.iso then "i" else "a"))
+  s!"G {g} | D {d} | L1 {l1} | L2 {l2} | B {b}"
+
+private def status : Outcome → String
+  | none => "ok"
+  | some e => e.token
+
+/-- take `n` floats from the token list -/
+private def takeFloats (n : Nat) (toks : List String) : List Float × List String :=
+  ((toks.take n).map fl, toks.drop n)
+
+private def parseCharge (s : String) : Option Nat := if s == "-" then none else some s.toNat!
+
+private def parseChildren (dim : Nat) : Nat → List String → List (Option Nat × List Float) × List String
+  | 0, toks => ([], toks)
+  | n + 1, toks =>
+    match toks with
+    | [] => ([], [])
+    | c :: rest =>
+      let (p, rest) := takeFloats dim rest
+      let (cs, rest) := parseChildren dim n rest
+      ((parseCharge c, p) :: cs, rest)
+
+private def parseRoots (dim : Nat) :
+    Nat → List String → List (Option Nat × List Float × List (Option Nat × List Float))
+  | 0, _ => []
+  | n + 1, toks =>
+    match toks with
+    | nch :: c :: rest =>
+      let (p, rest) := takeFloats dim rest
+      let (cs, rest) := parseChildren dim nch.toNat! rest
+      (parseCharge c, p, cs) :: parseRoots dim n rest
+    | _ => []
+
+private def parseSel (s : String) : Nat × Nat :=
+  match s.splitOn ":" with
+  | [a, b] => (a.toNat!, b.toNat!)
+  | _ => (0, 0)
+
+private def parseOp : List String → Option (Op Float)
+  | ["extract", id] => some (.extract (parseId id))
+  | ["active"] => some .active
+  | ["global"] => some .global
+  | "insert" :: sel => some (.insert (sel.map parseSel))
+  | ["setpos", b, u, i, x] => some (.setPos b.toNat! u.toNat! i.toNat! (fl x))
+  | "newpos" :: b :: u :: xs => some (.newPos b.toNat! u.toNat! (xs.map fl))
+  | ["setvel", b, u, i, x] => some (.setVel b.toNat! u.toNat! i.toNat! (fl x))
+  | ["newvel", b, u, "-"] => some (.newVel b.toNat! u.toNat! none)
+  | "newvel" :: b :: u :: xs => some (.newVel b.toNat! u.toNat! (some (xs.map fl)))
+  | ["tsupd", b, u, q, r] => some (.tsUpdate b.toNat! u.toNat! (fl q) (fl r))
+  | ["newts", b, u, "-"] => some (.newTs b.toNat! u.toNat! none)
+  | ["newts", b, u, q, r] => some (.newTs b.toNat! u.toNat! (some (fl q, fl r)))
+  | _ => none
+
+def storeComp : Comp where
+  σ := Sess Float
+  init := Sess.init Ops.float 1 1 []
+  step := fun s args =>
+    match args with
+    | "init" :: levels :: perRoot :: dim :: nroots :: rest =>
+      let s' := Sess.init Ops.float levels.toNat! perRoot.toNat! (parseRoots dim.toNat! nroots.toNat! rest)
+      (s', s!"ok | A - | {dump s'}")
+    | _ =>
+      match parseOp args with
+      | none => (s, "bad-op")
+      | some op =>
+        let r := step s op
+        let a := match op with
+          | .active => showIds s.g.lift.independent
+          | _ => "-"
+        (r.1, s!"{status r.2} | A {a} | {dump r.1}")
 end JF.Driver
